@@ -222,10 +222,23 @@ def check_snapshot(model, rep):
             rep.decide(not bad, 'C18.pairing', 'Powertrain.snapshot:UNITS', f'label mapping pairs {bad} (variable, unit parameter) wrongly',
                        loc=f'{m.module}:{n.lineno}')
     # purity
-    stores = [n for n in ast.walk(m.node) if isinstance(n, ast.Attribute) and isinstance(n.ctx, ast.Store)
+    # snapshot and the private helper methods it calls on the powertrain
+    ci = model.classes['Powertrain']
+    scanned, todo = [], [m.node]
+    while todo:
+        fn_ = todo.pop()
+        if fn_ in scanned:
+            continue
+        scanned.append(fn_)
+        for n in ast.walk(fn_):
+            if isinstance(n, ast.Call) and isinstance(n.func, ast.Attribute) and isinstance(n.func.value, ast.Name) \
+                    and n.func.value.id == 'self' and n.func.attr in ci.members and ci.members[n.func.attr].kind in ('method', 'staticmethod'):
+                todo.append(ci.members[n.func.attr].node)
+    methods = {k for k, v in ci.members.items() if v.kind in ('method', 'staticmethod')}
+    stores = [n for fn_ in scanned for n in ast.walk(fn_) if isinstance(n, ast.Attribute) and isinstance(n.ctx, ast.Store)
               and isinstance(n.value, ast.Name) and n.value.id == 'self']
-    reads = [n.attr for n in ast.walk(m.node) if isinstance(n, ast.Attribute) and isinstance(n.ctx, ast.Load)
-             and isinstance(n.value, ast.Name) and n.value.id == 'self' and n.attr.startswith('_')]
+    reads = [n.attr for fn_ in scanned for n in ast.walk(fn_) if isinstance(n, ast.Attribute) and isinstance(n.ctx, ast.Load)
+             and isinstance(n.value, ast.Name) and n.value.id == 'self' and n.attr.startswith('_') and n.attr not in methods]
     rep.decide(not stores and not reads, 'C18.pure', 'Powertrain.snapshot',
                f'snapshot keeps/reads private state on the powertrain ({[s.attr for s in stores] + reads}): a cached axis can go stale '
                f'after reset/rerun', loc=m.loc)
